@@ -7,6 +7,7 @@ pub mod c01;
 pub mod c12;
 pub mod c13;
 pub mod c15;
+pub mod c19;
 pub mod jobs;
 
 pub struct CheckDef {
@@ -27,6 +28,7 @@ pub fn all() -> Vec<CheckDef> {
     v.push(c12::def());
     v.push(c13::def());
     v.push(c15::def());
+    v.push(c19::def());
     v
 }
 
